@@ -13,7 +13,7 @@ Inductive kform := KLit | KParen | KVar (x : list N) | KParenVar (x : list N).
 Inductive doc : Type :=
 | DNull
 | DBool (b : bool)
-| DInt (z : Z)
+| DInt (ty : option ity) (z : Z)        (* `-`? digits suffix?, e.g. 7, -5i8, 255u8 *)
 | DFloat (neg : bool) (s : list N)        (* `-`? followed by the float literal spelt s *)
 | DStr (s : list N)
 | DArr (l : list doc) (tc : bool)
@@ -48,7 +48,7 @@ Fixpoint tokens (d : doc) : list tt :=
   match d with
   | DNull => [TIdent INull]
   | DBool b => [TLit (LBool b)]
-  | DInt z => if (z <? 0)%Z then [TPunct PMinus; TLit (LInt (Z.abs_N z))] else [TLit (LInt (Z.abs_N z))]
+  | DInt ty z => if (z <? 0)%Z then [TPunct PMinus; TLit (LInt (Z.abs_N z) ty)] else [TLit (LInt (Z.abs_N z) ty)]
   | DFloat neg s => if neg then [TPunct PMinus; TLit (LFloat s)] else [TLit (LFloat s)]
   | DStr s => [TLit (LStr s)]
   | DArr l tc => [TGroup Bracket (sep_tokens (map tokens l) tc)]
@@ -66,7 +66,7 @@ Fixpoint text (d : doc) : list N :=
   | DNull => s2l "null"
   | DBool true => s2l "true"
   | DBool false => s2l "false"
-  | DInt z => dec_of_Z z
+  | DInt _ z => dec_of_Z z
   | DFloat neg s => if neg then 0x2D :: s else s
   | DStr s => quote s
   | DArr l _ => [0x5B] ++ join [0x2C] (map text l) ++ [0x5D]
@@ -78,7 +78,7 @@ Fixpoint value_of (d : doc) : value :=
   match d with
   | DNull => VNull
   | DBool b => VBool b
-  | DInt z => VNum (dec_of_Z z)
+  | DInt _ z => VNum (dec_of_Z z)
   | DFloat neg s => VNum (if neg then 0x2D :: s else s)
   | DStr s => VStr s
   | DArr l _ => VArr (map value_of l)
@@ -113,7 +113,7 @@ Section Dom.
     match d with
     | DNull => True
     | DBool _ => True
-    | DInt z => (-2147483648 <= z <= 2147483647)%Z
+    | DInt ty z => (ity_min (ity_of ty) <= z <= ity_max (ity_of ty))%Z
     | DFloat _ s => float_lit s /\ fmt_f64 s = Some s
     | DStr s => Forall (fun c => is_scalar c = true) s
     | DArr l _ =>
